@@ -113,32 +113,22 @@ Print Assumptions C13_history_fired.
    it on the state before the item; applied sets grow by exactly the item's id on exactly the
    targets that were changed; copies inherit history.
    Proved part: items that do not gate a field-name transformation by the field-name condition
-   processing_item_applied, and have no 1:n mapping. *)
+   processing_item_applied (1:1 and 1:n mappings included). *)
 Theorem C13_step_partial :
   forall it T w w' b,
     wf_ngroup (i_rule it) -> wf_ngroup (i_det it) -> wf_ngroup (i_field it) ->
-    tracking_safe it = true -> no_one_to_many it = true ->
+    tracking_safe it = true ->
     step it w = Ok (w', b) ->
     exists ws T', sp_step it T w = Ok (ws, b, T') /\ same_obs ws w'.
 Proof. exact step_meets_spec. Qed.
 Print Assumptions C13_step_partial.
 
-(* outside that domain the statement is refuted twice: *)
-(* a 1:n field name mapping makes copies that forget the items applied to the original *)
-Theorem C13_history_detitem_refuted :
-  exists it1 it2 w w1 w2 w2' T1 T2,
-    tracking_safe it1 = true /\ tracking_safe it2 = true /\
-    step it1 w = Ok (w1, true) /\ sp_step it1 [] w = Ok (w1, true, T1) /\
-    step it2 w1 = Ok (w2, true) /\ sp_step it2 T1 w1 = Ok (w2', true, T2) /\
-    r_dets (w_rule w2) <> r_dets (w_rule w2').
-Proof. exact one_to_many_forgets. Qed.
-Print Assumptions C13_history_detitem_refuted.
-
+(* outside that domain the statement is refuted: *)
 (* the field-name condition processing_item_applied does not see the items applied to a detection
    item's field *)
 Theorem C13_history_field_refuted :
   exists it1 it2 w w1 w2 w2' T1 T2,
-    no_one_to_many it1 = true /\ no_one_to_many it2 = true /\
+    has_fapplied (i_field it2) = true /\
     step it1 w = Ok (w1, true) /\ sp_step it1 [] w = Ok (w1, true, T1) /\
     step it2 w1 = Ok (w2, true) /\ sp_step it2 T1 w1 = Ok (w2', true, T2) /\
     r_dets (w_rule w2) <> r_dets (w_rule w2').
@@ -175,7 +165,7 @@ Definition ex_item : item :=
                    n_mode := MExpr (EAnd (EId [120]) (ENot (EId [121]))); n_neg := false |} |}.
 Example C13_step_inhabited :
   wf_ngroup (i_rule ex_item) /\ wf_ngroup (i_det ex_item) /\ wf_ngroup (i_field ex_item) /\
-  tracking_safe ex_item = true /\ no_one_to_many ex_item = true /\
+  tracking_safe ex_item = true /\
   exists w', step ex_item (world1 [[97]] [leaf [97] [VStr [120]]; leaf [98] [VNum 1%Z]]) = Ok (w', true) /\
              r_fields (w_rule w') = [[97; 95; 83]] /\
              r_dets (w_rule w') = [([115], DNode [DLeaf {| d_field := Some [97; 95; 83]; d_vals := [VStr [120]]; d_applied := [[109]] |};
